@@ -124,6 +124,12 @@ def apply_perturbation(resp, p):
         m = res.get("measures", {}).get(p[1])
         if m and isinstance(m.get("metadata"), dict):
             m["metadata"].pop("references", None)
+    elif kind == "dimalias":  # ["dimalias", old_alias, new_alias]: another dataset's variable, same alias
+        _k, old, new = p
+        for dm in res["dimensions"]:
+            refs = dm.get("references") or {}
+            if refs.get("alias") == old:
+                refs["alias"] = new
     elif kind == "mark_missing":  # ["mark_missing", raw_dim_idx, cat_idx]
         _k, di, ci = p
         cats = res["dimensions"][di]["type"].get("categories") or []
